@@ -788,6 +788,10 @@ impl CodeGenerator {
         term_loc: GenContext,
         arg: usize,
     ) -> Result<ArithCont, ArithmeticError> {
+        // a variable operand is loaded into argument register `arg`, which is where the
+        // instruction reads it, whatever the operands before it needed
+        self.marker.set_arg(arg);
+
         let mut evaluator = ArithmeticEvaluator::new(&mut self.marker);
         evaluator.compile_is(term, term_loc, arg)
     }
